@@ -465,6 +465,12 @@ func (e *HTTPEndpointExpr) Validate() error {
 	}
 	if hasTags && !IsObject(e.MethodExpr.Result.Type) {
 		verr.Add(e, "Some responses define a Tag but the method Result type is not an object.")
+	} else if hasTags {
+		for _, r := range e.Responses {
+			if r.Tag[0] != "" && e.MethodExpr.Result.Find(r.Tag[0]) == nil {
+				verr.Add(r, "Tag attribute %q not found in result.", r.Tag[0])
+			}
+		}
 	}
 
 	// Make sure parameters and headers use compatible types
